@@ -45,7 +45,11 @@ func main() {
 	if len(os.Args) > 1 {
 		out = os.Args[1]
 	}
-	cfg := &packages.Config{Mode: packages.NeedName | packages.NeedFiles | packages.NeedSyntax | packages.NeedTypes | packages.NeedTypesInfo, Dir: "/repo"}
+	repo := "/repo"
+	if len(os.Args) > 2 {
+		repo = os.Args[2] // another checkout (used when trying the translator out)
+	}
+	cfg := &packages.Config{Mode: packages.NeedName | packages.NeedFiles | packages.NeedSyntax | packages.NeedTypes | packages.NeedTypesInfo, Dir: repo}
 	pkgs, err := packages.Load(cfg, "filippo.io/age", "filippo.io/age/agessh", "filippo.io/age/armor", "filippo.io/age/internal/stream", "filippo.io/age/internal/format", "filippo.io/age/internal/bech32")
 	if err != nil {
 		fmt.Fprintln(os.Stderr, err)
@@ -63,7 +67,7 @@ func main() {
 	var missing []string
 	pos := func(p *packages.Package, n ast.Node) string {
 		q := p.Fset.Position(n.Pos())
-		return fmt.Sprintf("%s:%d", strings.TrimPrefix(q.Filename, "/repo/"), q.Line)
+		return fmt.Sprintf("%s:%d", strings.TrimPrefix(q.Filename, repo+"/"), q.Line)
 	}
 	// a named constant anywhere in the package (package level or local to a function)
 	constOf := func(pkg, name string) (constant.Value, string, bool) {
